@@ -888,6 +888,17 @@ def run(tier, seed):
                           why or "no fact at the division excludes a zero divisor, and its derivation does not either: an archive value that makes it 0 stops the program with SIGFPE",
                           function=f.cname, obj="div-%s" % describe(f, dv))
         rep.extra["integer_divisions"] = dict(ndiv)
+        # ---- R7b stack objects of run-time size -------------------------------------------------------------------------
+        rid = rep.rule("R7b", "no stack object is sized at run time: every alloca has a constant element count, and alloca() is not called (a variable-length "
+                              "array sized from archive data moves the stack pointer by an amount the archive chooses)", 40)
+        for f in mod.defined():
+            for i in f.insts():
+                if i.op == "alloca":
+                    okc = (not i.ops) or is_const(i.ops[0])
+                    rep.check(rid, okc, "%s: stack object of constant size" % f.cname, i.where(),
+                              None if okc else "element count %s is computed at run time" % describe(f, i.ops[0]), function=f.cname, obj="vla")
+                elif i.op == "call" and (mod.callee_cname(i) or "") in ("alloca", "__builtin_alloca"):
+                    rep.violation(rid, "%s: alloca()" % f.cname, i.where(), "stack allocation through alloca()", function=f.cname, obj="alloca")
         rid = rep.rule("R5", "nullable header strings (path, filename, symlink_target, unix_username, unix_group) are used as strings only under a non-NULL fact", 25)
         LISTED = {
             ("is_macbinary_header", "filename"): "MacBinary detection runs for file members only (open_decoder requires a NORMAL entry that is decoded; C12.R5: a file entry always has a name)",
